@@ -41,6 +41,8 @@ type Task struct {
 	Stack  string
 	// Daemon tasks do not keep a phase alive (peers that wait for input forever).
 	Daemon bool
+	// Frozen tasks are never scheduled (a stalled / suspended peer process).
+	Frozen bool
 }
 
 // Strategy kinds.
@@ -464,7 +466,7 @@ func (s *Sched) Run(cond func() bool, maxSteps int, horizon time.Duration) Statu
 			if !t.Daemon {
 				alive++
 			}
-			if t.state == stParked && (t.pred == nil || t.pred()) {
+			if t.state == stParked && !t.Frozen && (t.pred == nil || t.pred()) {
 				en = append(en, t)
 			}
 		}
